@@ -67,6 +67,7 @@ pub fn run(case: &Value) -> Vec<Value> {
         }
         "conf.observe" => {
             let c = case.clone();
+            ev["cin"] = json!({"kind": case["c"]["kind"], "level": enc::enc_f64(enc::dec_f64(&case["c"]["level"]))});
             ev["res"] = guarded(move || {
                 let x = mk_conf(&c["c"]);
                 let f = x.flipped();
@@ -86,6 +87,8 @@ pub fn run(case: &Value) -> Vec<Value> {
         }
         "conf.cmp" => {
             let c = case.clone();
+            ev["cin"] = json!({"kind": case["c"]["kind"], "level": enc::enc_f64(enc::dec_f64(&case["c"]["level"]))});
+            ev["din"] = json!({"kind": case["d"]["kind"], "level": enc::enc_f64(enc::dec_f64(&case["d"]["level"]))});
             ev["res"] = guarded(move || {
                 let a = mk_conf(&c["c"]);
                 let b = mk_conf(&c["d"]);
